@@ -10,7 +10,7 @@ import numpy as np
 from qiskit.circuit import QuantumCircuit, QuantumRegister, ClassicalRegister, Qubit, Clbit, Delay
 from qiskit.circuit.library.standard_gates import get_standard_gate_name_mapping
 from qiskit.transpiler import PassManager
-from qiskit.transpiler.passes import DAGFixedPoint
+from qiskit.transpiler.passes import DAGFixedPoint, FixedPoint, Size
 from qiskit.passmanager.flow_controllers import DoWhileController
 
 from qiskit_addon_cutting.cutting_experiments import (
@@ -109,10 +109,16 @@ def pass_managers():
         pm.append(DoWhileController([RemoveFinalReset(), DAGFixedPoint()],
                                     do_while=lambda ps: not ps["dag_fixed_point"]))
         _PM["dag_rfr_fix"] = pm
+        # same loop with the stock size-based fixed-point test (no deepcopy of the DAG per iteration);
+        # used for the bounded-exhaustive stream, where DAGFixedPoint would dominate the run time
+        pm = PassManager()
+        pm.append(DoWhileController([RemoveFinalReset(), Size(), FixedPoint("size")],
+                                    do_while=lambda ps: not ps["size_fixed_point"]))
+        _PM["dag_rfr_fix_size"] = pm
     return _PM
 
 
-def run_passes(qc):
+def run_passes(qc, size_fixed_point=False):
     """Apply every pass to a fresh copy; returns {pass: QuantumCircuit}."""
     out = {}
     a = qc.copy()
@@ -131,7 +137,8 @@ def run_passes(qc):
     out["pipeline"] = a
     pms = pass_managers()
     for k in ("dag_rfr", "dag_rfr_fix", "dag_consolidate"):
-        out[k] = pms[k].run(qc)
+        pm = pms["dag_rfr_fix_size"] if (k == "dag_rfr_fix" and size_fixed_point) else pms[k]
+        out[k] = pm.run(qc)
     return out
 
 
@@ -275,9 +282,9 @@ def features(w, stream, cin, couts):
 
 def one_case(w, stream, nq, nc, prog, qlayout=None, clayout=None, combined=False):
     qc = build(nq, nc, prog, qlayout, clayout)
-    outs = run_passes(qc)
+    outs = run_passes(qc, size_fixed_point=combined)
     cin, couts = canon_all(qc, outs)
-    case = dict(nq=nq, nc=nc, qlayout=qlayout, clayout=clayout,
+    case = dict(nq=nq, nc=nc, qlayout=qlayout, clayout=clayout, size_fixed_point=combined,
                 cin=[tok(d) for d in cin], impl={k: [tok(d) for d in couts[k]] for k in PASSES})
     v = judge(case)
     # the density-matrix oracle (independent of the Coq model) must agree with the property on every case
@@ -341,7 +348,7 @@ def generate(rng, tier, outdir):
         "all seven checks); random dynamic circuits on 1..4 qubits, 0..4 clbits, <= 16 instructions with shaped resets (leading, "
         "trailing, repeated, around two-qubit gates on either argument, separated by barrier/measure), one case per pass; exotic "
         "stream: split registers/loose bits, delay/id gates, empty and qubit-less circuits. List passes: exact instruction list; "
-        "transpiler passes (through PassManager): per-wire sequences. non-trivial = the pass removed at least one instruction. "
+        "transpiler passes (through PassManager; the fixed point of RemoveFinalReset by DoWhileController with Size+FixedPoint on the exhaustive stream and with DAGFixedPoint on the other streams): per-wire sequences. non-trivial = the pass removed at least one instruction. "
         "Every case is also judged by the independent density-matrix branch simulator (oracle contract)."
     )
 
@@ -545,6 +552,8 @@ def judge_pass(name, nq, nc, cin, cout):
         for q in range(nq):
             if trailing_resets(wire_seq(cout, q)) < trailing_resets(wire_seq(cin, q)):
                 dropped.add(q)
+    if cout == cin:
+        return None  # nothing removed: trivially the same law
     a = _sim_cached(nq, nc, cin)
     b = _sim_cached(nq, nc, cout)
     dim = 2 ** (nq - len(dropped))
@@ -578,7 +587,7 @@ def rerun(case):
         params = d["op"][3] if d["op"][0] == "gate" else []
         prog.append((name, params, d["qs"], d["cs"]))
     qc = build(case["nq"], case["nc"], prog, case.get("qlayout"), case.get("clayout"))
-    outs = run_passes(qc)
+    outs = run_passes(qc, size_fixed_point=bool(case.get("size_fixed_point")))
     cin, couts = canon_all(qc, outs)
     assert [tok(d) for d in cin] == case["cin"], "rebuilt circuit differs from the stored input"
     case["impl"] = {k: [tok(d) for d in couts[k]] for k in PASSES}
